@@ -137,3 +137,73 @@ theorem run_ref (ops : List Op) : ∀ (s : State), Inv s →
     rfl
 
 end Rtsp.TimeDec
+
+namespace Rtsp.TimeDec
+
+/-- PTS differences are congruent to timestamp differences modulo 2^32 -/
+theorem Chained_congr (tr : List (UInt32 × Int)) (h : Chained tr) (i j : Nat) (hij : i ≤ j)
+    (hj : j < tr.length) :
+    (tr[j].2 - tr[i].2 - ((tr[j].1.toNat : Int) - tr[i].1.toNat)) % 4294967296 = 0 := by
+  induction j with
+  | zero => have : i = 0 := by omega
+            subst this; simp
+  | succ j ih =>
+    rcases Nat.eq_or_lt_of_le hij with e | hlt
+    · subst e; simp
+    · have ih' := ih (by omega) (by omega)
+      have hs := Chained_step tr h j hj
+      have hc := sdelta_congr tr[j + 1].1 tr[j].1
+      omega
+
+/-- a `Decode` that returns nothing leaves the decoder unchanged -/
+theorem decode_none_state (s : State) (o : Op) (h : (decode s o).2 = none) : (decode s o).1 = s := by
+  by_cases hr : o.rate = 0
+  · rw [decode_rate_zero s o hr]
+  · cases ht : s.tracks o.id with
+    | none =>
+      cases he : o.eq with
+      | false => rw [decode_new_refused s o hr ht he]
+      | true => rw [(decode_new s o hr ht he).1] at h; cases h
+    | some t => rw [(decode_old s o hr t ht).1] at h; cases h
+
+/-- which packets get a PTS: clock rate not 0, and the track already started or this packet has PTS = DTS -/
+theorem decode_isSome_iff (s : State) (o : Op) :
+    (decode s o).2.isSome = true ↔ o.rate ≠ 0 ∧ (s.tracks o.id ≠ none ∨ o.eq = true) := by
+  by_cases hr : o.rate = 0
+  · rw [decode_rate_zero s o hr]; simp [hr]
+  · cases ht : s.tracks o.id with
+    | none =>
+      cases he : o.eq with
+      | false => rw [decode_new_refused s o hr ht he]; simp
+      | true => rw [(decode_new s o hr ht he).1]; simp [hr]
+    | some t => rw [(decode_old s o hr t ht).1]; simp [hr]
+
+/-- the first packet that is given a PTS (the one that elects the leading track) gets PTS 0 -/
+theorem first_pts_zero (o : Op) (p : Int) (h : (decode init o).2 = some p) : p = 0 := by
+  by_cases hr : o.rate = 0
+  · rw [decode_rate_zero init o hr] at h; cases h
+  · have ht : init.tracks o.id = none := rfl
+    cases he : o.eq with
+    | false => rw [decode_new_refused init o hr ht he] at h; cases h
+    | true =>
+      rw [(decode_new init o hr ht he).1] at h
+      have : startOf (elect init o) o = 0 := by
+        simp [elect, init, startOf, mulDiv_zero]
+      rw [this] at h; cases h; rfl
+
+/-- a started track stays started -/
+theorem decode_tracks_mono (s : State) (o : Op) (id : Nat) (h : s.tracks id ≠ none) :
+    (decode s o).1.tracks id ≠ none := by
+  by_cases hid : o.id = id
+  · subst hid
+    have hs := decode_self s o
+    cases ht : s.tracks o.id with
+    | none => exact absurd ht h
+    | some t =>
+      rw [ht] at hs
+      cases hp : (decode s o).2 with
+      | none => rw [hp] at hs; rw [hs]; simp
+      | some p => rw [hp] at hs; rw [hs.2]; simp
+  · rw [decode_frame s o id hid]; exact h
+
+end Rtsp.TimeDec
